@@ -118,7 +118,7 @@ def _sched_spec(r, horizon_hint=None, max_pre=4):
 CURVES = {"toy": None, "secp112r1": "SECP112r1", "secp128r1": "SECP128r1", "nist256p": "NIST256p"}
 
 POINT_OPS = ["mulG", "mulG", "mulG", "muladd", "scaleP", "affP", "xyP", "eqPQ", "addPQ", "dblP", "pickleG", "mulP"]
-LIB_OPS = ["keygen", "signverify", "ecies", "ecdh", "verifyP", "verifyP", "dhshared", "dhshared"]
+LIB_OPS = ["keygen", "signverify", "ecies", "ecdh", "verifyP", "verifyP", "dhshared", "dhshared", "precomputeP"]
 
 
 def _prog(r, curve, order):
@@ -138,6 +138,8 @@ def _prog(r, curve, order):
             prog.append([op, r.randrange(4)])
         elif op == "dhshared":
             prog.append([op, r.randrange(3)])
+        elif op == "precomputeP":
+            prog.append([op, r.random() < 0.7])
         else:
             prog.append([op])
     return prog
@@ -583,6 +585,11 @@ def _exec(w, op, tctx):
         return (ok, int(w.P.x()), int(w.P.y()))
     if k == "dhshared":
         return w.recip.compute_dh_secret(w.peers[op[1]]).hex()
+    if k == "precomputeP":
+        # switches the shared verifying key (its point knows its order) to table mode: a new point object is
+        # published with one assignment
+        w.vkP.precompute(lazy=op[1])
+        return "done"
     if k == "precomputeD":
         try:
             return repr(w.vkD.precompute(lazy=op[1]))
